@@ -34,6 +34,20 @@ def _broadcasts_into(shape, target: tuple[int, ...]) -> bool:
     )
 
 
+def _known_to_broadcast_into(shape, target) -> bool:
+    """Whether broadcasting ``shape`` against ``target`` provably yields ``target``.
+
+    Dimensions match if they are the same integer or the same symbolic name, or if the
+    dimension of ``shape`` is 1; unknown (``None``) dimensions never match.
+    """
+    if len(shape) > len(target):
+        return False
+    return all(
+        dim == 1 or (dim is not None and dim == t)
+        for dim, t in zip(reversed(shape), reversed(target))
+    )
+
+
 class UniformShapeOperations(OperationsBlock):
     """Provides implementation for shape/indexing operations that are generic across all
     data types where the array's shape is uniform across all of its constituent
@@ -185,12 +199,14 @@ class UniformShapeOperations(OperationsBlock):
                 condition.to_numpy().size == 1
                 and condition.to_numpy().ndim <= x.ndim
                 and condition.to_numpy().item()
+                and _known_to_broadcast_into(y._static_shape, x._static_shape)
             ):
                 return x.copy()
             elif (
                 condition.to_numpy().size == 1
                 and condition.to_numpy().ndim <= y.ndim
                 and not condition.to_numpy().item()
+                and _known_to_broadcast_into(x._static_shape, y._static_shape)
             ):
                 return y.copy()
         if (
